@@ -47,7 +47,8 @@ CONFIG_ARRAYS = ('b0', 'P', 'weights', 'q0')
 def make_config(params):
     """Caller-owned configuration arrays of one application task (created once, reused for every object
     the application builds from this configuration)."""
-    return {'_shared_' + k: np.array(params[k], dtype=float) for k in CONFIG_ARRAYS if params.get(k) is not None}
+    return {'_shared_' + k: np.array(params[k], dtype=float) for k in CONFIG_ARRAYS
+            if params.get(k) is not None and not (k == 'q0' and params.get('q0_as_list'))}
 
 
 def effective_dt(p, dt):
@@ -99,6 +100,8 @@ def _arr(p, name):
 def _q0(p):
     if p.get('q0') is None:
         return None
+    if p.get('q0_as_list'):
+        return list(p['q0'])
     return _arr(p, 'q0')
 
 
@@ -618,7 +621,7 @@ def gen_params(rnd, kind, *, with_q0=True, defaults_prob=0.3):
             p['b0'] = [rnd.gauss(0, 0.01) for _ in range(3)]
     elif kind.startswith('ekf'):
         p['frame'] = rnd.choice(['NED', 'ENU'])
-        p['magnetic_ref'] = rnd.choice(['dip', 'dip', 'vector'])
+        p['magnetic_ref'] = rnd.choice(['dip', 'dip', 'vector', 'default'])      # 'default': the class asks the WMM (calendar frozen)
         if p['magnetic_ref'] == 'vector' and rnd.random() < 0.5:
             p['mref_scale'] = rnd.choice([48.0, 0.3, 5e4])
         if not default:
@@ -646,7 +649,7 @@ def gen_params(rnd, kind, *, with_q0=True, defaults_prob=0.3):
             p['gain'] = 10 ** rnd.uniform(-2, 0)
     elif kind in ('roleq', 'oleq'):
         p['frame'] = rnd.choice(['NED', 'ENU'])
-        p['magnetic_ref'] = rnd.choice(['dip', 'dip', 'vector'])
+        p['magnetic_ref'] = rnd.choice(['dip', 'dip', 'vector', 'default'])
         if rnd.random() < 0.5:
             p['weights'] = [rnd.choice([1.0, 0.5, 2.0, rnd.uniform(0.1, 3)]), rnd.choice([1.0, 0.5, rnd.uniform(0.1, 3)])]
     elif kind == 'angular':
@@ -675,4 +678,8 @@ def gen_params(rnd, kind, *, with_q0=True, defaults_prob=0.3):
             p['weights'] = [rnd.uniform(0.1, 2), rnd.uniform(0.1, 2)]
     if with_q0 and k.q0_route == 'q0' and rnd.random() < 0.5:
         p['q0'] = W.rand_unit(rnd, 4)
+        if rnd.random() < 0.15:
+            # written the way people write it: a list of integers (handed over as such, not as a float array)
+            p['q0'] = rnd.choice([[1, 0, 0, 0], [0, 1, 0, 0], [0, 0, 1, 0], [0, 0, 0, 1], [-1, 0, 0, 0]])
+            p['q0_as_list'] = True
     return p
